@@ -164,6 +164,18 @@ func (e *Exec) scenarioShape(path string, t types.Type, a string) ([]altFn, bool
 			delete(s.Fresh, r.Cell)
 			return SliceV{Arr: r, Len_: len(els), Cap: len(els)}
 		}, a)
+	case "anyvals": // anyvals(n): a slice of n opaque interface values
+		n := 0
+		fmt.Sscan(args[0], &n)
+		return one(func(s *State) Val {
+			var els []Val
+			for i := 0; i < n; i++ {
+				els = append(els, Iface{Dyn: errDynType, V: Opaque{Tag: fmt.Sprintf("%s[%d]", path, i)}})
+			}
+			r := s.alloc(&Agg{Elems: els})
+			delete(s.Fresh, r.Cell)
+			return SliceV{Arr: r, Len_: n, Cap: n}
+		}, a)
 	case "atoms": // atoms(n): a slice of n unknown strings
 		n := 0
 		fmt.Sscan(args[0], &n)
@@ -245,6 +257,11 @@ func (e *Exec) scenarioShape(path string, t types.Type, a string) ([]altFn, bool
 				if !placeholder {
 					fields["Type"] = Iface{Dyn: primT, V: mkStruct(primT, map[string]Val{"Type": lit("string")})}
 				}
+				stT := w.namedType("pkg/schemas", "Type")
+				sr := s.alloc(zeroVal(stT))
+				delete(s.Fresh, sr.Cell)
+				s.CellTypes[sr.Cell] = stT
+				fields["SchemaType"] = sr
 				dr := s.alloc(mkStruct(declT, fields))
 				delete(s.Fresh, dr.Cell)
 				m.Keys = append(m.Keys, lit(nm))
